@@ -164,6 +164,7 @@ impl Ctx {
         let path = dir.join(format!("{:016x}.json", stable_hash(&text)));
         let _ = std::fs::write(&path, &text);
         println!("VIOLATION property={} replay={}", self.property, path.display());
+        VIOLATION_PRINTED.store(true, std::sync::atomic::Ordering::SeqCst);
         println!("  what: {}", what.lines().next().unwrap_or(""));
         self.violations.push((what.to_string(), path));
     }
@@ -231,9 +232,16 @@ impl Ctx {
     }
 }
 
-/// exit 2 with a reason: harness trouble, never a verdict on the property
+/// set once a `VIOLATION` line has been printed by this process
+pub static VIOLATION_PRINTED: std::sync::atomic::AtomicBool = std::sync::atomic::AtomicBool::new(false);
+
+/// exit 2 with a reason: harness trouble, never a verdict on the property.
+/// (A violation that was already established and printed stays the verdict: exit 1.)
 pub fn inconclusive(msg: &str) -> ! {
     println!("INCONCLUSIVE: {msg}");
+    if VIOLATION_PRINTED.load(std::sync::atomic::Ordering::SeqCst) {
+        std::process::exit(1)
+    }
     std::process::exit(EXIT_INCONCLUSIVE)
 }
 
